@@ -125,16 +125,17 @@ def is_empty_list(v):
     return isinstance(v, SList) and v.base is None and len(v.items) == 0
 
 
-def expected_calls(lst, args):
-    """events produced by calling every element of lst once, in order, with args"""
+def expected_calls(lst, args, kwargs=None):
+    """events produced by calling every element of lst once, in order, with args (and keyword arguments)"""
     from .interp import Builtin
     ev = []
+    kw = (tuple(sorted(kwargs.items())),) if kwargs else ()
     if lst.base is not None:
-        ev.append(("foreach-call", lst.base.name, tuple(args)))
+        ev.append(("foreach-call", lst.base.name, tuple(args)) + kw)
     for it in lst.items:
         if not (isinstance(it, Builtin) and it.name.startswith("cb:")):
             raise V.Unsupported("expected_calls over non-callback element %r" % (it,))
-        ev.append(("cb", it.name[3:], tuple(args)))
+        ev.append(("cb", it.name[3:], tuple(args)) + kw)
     return ev
 
 
@@ -158,3 +159,75 @@ def events_are(s, expected, kinds=None):
 def sub(b, lo, hi):
     """sub-range of a concrete-length bytes value"""
     return SBytes(items_of(b)[lo:hi], False)
+
+
+# ---------------------------------------------------------------------------------------------
+# byte strings of symbolic or concrete length
+
+def blen(b):
+    if isinstance(b, LBytes):
+        return b.n
+    return len(items_of(b))
+
+
+def bat(b, i):
+    """byte i (int|SInt index, assumed in range) as int|SInt"""
+    if isinstance(b, LBytes):
+        return byte_to_int(b.at(i))
+    its = items_of(b)
+    if not is_sym(i):
+        return byte_to_int(its[i])
+    r = 0
+    for k in range(len(its) - 1, -1, -1):
+        r = ite(compare("==", i, k), byte_to_int(its[k]), r)
+    return r
+
+
+def same_bytes(a, b, ctx=None, tag="j"):
+    """a and b hold the same byte string (any mix of concrete/symbolic length).  For two symbolic-length values the
+    claim `forall j < len: a[j] == b[j]` is proved for a fresh (skolem) index."""
+    if isinstance(a, SBytes) and isinstance(b, SBytes):
+        return V.bytes_eq(a, b)
+    if isinstance(a, SBytes):
+        a, b = b, a
+    if isinstance(b, SBytes):
+        n = len(b.items)
+        return And([compare("==", a.n, n)] + [compare("==", byte_to_int(a.at(i)), byte_to_int(b.items[i])) for i in range(n)])
+    if not (isinstance(a, LBytes) and isinstance(b, LBytes)):
+        return False
+    c = ctx or V.ctx()
+    j = c.fresh_int(tag, 0, 1 << 33)
+    return And(compare("==", a.n, b.n), Implies(compare("<", j, a.n), compare("==", bat(a, j), bat(b, j))))
+
+
+def is_suffix_from(new, old, k):
+    """new == old[k:]"""
+    if isinstance(new, LBytes) and isinstance(old, LBytes):
+        c = V.ctx()
+        j = c.fresh_int("js", 0, 1 << 33)
+        return And(compare("==", new.n, binop("-", old.n, k)),
+                   Implies(compare("<", j, new.n), compare("==", bat(new, j), bat(old, binop("+", j, k)))))
+    if isinstance(new, SBytes) and isinstance(old, SBytes):
+        return V.bytes_eq(new, SBytes(old.items[k:]))
+    return False
+
+
+def is_extended_by(new, old, chunk_items):
+    """new == old ++ chunk (chunk: list of byte values int|SInt)"""
+    m = len(chunk_items)
+    if isinstance(new, LBytes) and isinstance(old, LBytes):
+        c = V.ctx()
+        j = c.fresh_int("je", 0, 1 << 33)
+        return And([compare("==", new.n, binop("+", old.n, m)),
+                    Implies(compare("<", j, old.n), compare("==", bat(new, j), bat(old, j)))]
+                   + [compare("==", bat(new, binop("+", old.n, i)), chunk_items[i]) for i in range(m)])
+    if isinstance(new, SBytes) and isinstance(old, SBytes):
+        if len(new.items) != len(old.items) + m:
+            return False
+        return And([V.bytes_eq(SBytes(new.items[:len(old.items)]), old)]
+                   + [compare("==", byte_to_int(new.items[len(old.items) + i]), chunk_items[i]) for i in range(m)])
+    return False
+
+
+def is_byteslike(v):
+    return isinstance(v, (SBytes, LBytes))
